@@ -307,6 +307,44 @@ def canon_tokens(toks):
     return range_flags(out)
 
 
+def layout_tokens(toks):
+    """tokens of a formatted text with the layout undone: line breaks at bracket depth 0 are kept (one per run), inside
+    brackets they are the separators the parser takes them for (a pipe inside parentheses; nothing next to a comma, an
+    opener, a closer or `=>`); trailing commas are dropped; `..` carries its bind flags; finally ALL parentheses are
+    erased.  Two formatted texts of the same tree -- one wrapped at width 50, one on one line -- must agree on this
+    sequence (wrapping adds and moves parentheses: break_line_within_parenthesis); that the parentheses themselves
+    mean the same is what the AST comparison checks."""
+    ts = [t for t in toks if t != "Start" and not (isinstance(t, dict) and ("Comment" in t or "LineWrap" in t or "DocComment" in t))]
+
+    def ctl(t, chars):
+        return isinstance(t, dict) and t.get("Control") in tuple(chars)
+    out = []
+    depth = 0
+    for i, t in enumerate(ts):
+        if t == "NewLine":
+            prev = out[-1] if out else None
+            nxt = next((x for x in ts[i + 1:] if x != "NewLine"), None)
+            if depth == 0:
+                if prev is not None and prev != "NL" and nxt is not None:
+                    out.append("NL")
+                continue
+            if prev is None or ctl(prev, OPENERS + ",|") or prev == "ArrowFat" or nxt is None or ctl(nxt, CLOSERS):
+                continue
+            out.append({"Control": "|"})
+            continue
+        if ctl(t, OPENERS):
+            depth += 1
+        elif ctl(t, CLOSERS):
+            depth = max(0, depth - 1)
+        out.append(t)
+    ts, out = out, []
+    for i, t in enumerate(ts):
+        if ctl(t, ",") and i + 1 < len(ts) and ctl(ts[i + 1], CLOSERS):
+            continue
+        out.append(t)
+    return [t for t in range_flags(out) if not ctl(t, "()")]
+
+
 def range_flags(out):
     """`..` tokens with the bind flags the parser looks at, given their neighbours"""
     def ctl(t, chars):
@@ -504,6 +542,8 @@ def run(ck, info, pr):
     # wrapped real output: line breaking re-parenthesises (break_line_within_parenthesis keeps the outer context),
     # so texts are not comparable; instead the model's text must parse -- by the real parser -- to the same AST
     back = harness("c14", [{"src": "let v = " + (mt or "") + "\n", "targets": [], "compile": False} for mt in texts])
+    real_full = ["let v = " + real + "\n" for (_, _, _, real, _) in todo]
+    wrapped_pairs = []
     for k, ((stream, s, t, real, v), val, mt) in enumerate(zip(todo, vals, texts)):
         ck.count(stream, s)
         case = {"src": "let v = " + s + "\n", "real_fmt": real, "model_fmt": mt}
@@ -516,6 +556,7 @@ def run(ck, info, pr):
                 continue
         else:
             ck.stat(stream, "wrapped:ast-compared")
+            wrapped_pairs.append((stream, "let v = " + s + "\n", real_full[k], "let v = " + (mt or "") + "\n"))
             b = back[k]
             real_ok = "pl2" in answers_by_src.get(s, {}) and O.canon(O.strip(answers_by_src[s]["pl2"])) == O.canon(O.strip(answers_by_src[s]["pl"]))
             model_ok = isinstance(b, dict) and "pl" in b and value_of(b["pl"]) is not None and len(b["pl"]["stmts"]) == 1 and O.canon(O.strip(value_of(b["pl"]))) == O.canon(O.strip(v))
@@ -531,6 +572,8 @@ def run(ck, info, pr):
             ck.disagreement("model parse (model fmt e) <> e", dict(case, model_parse=str(parsed)[:300]), None)
         if len(ck.coverage["samples"]) < 8 and k % 211 == 0:
             ck.sample({"stream": stream, "src": s, "model_fmt": mt, "real_fmt": real, "model_roundtrip": ok_rt})
+
+    compare_wrapped(ck, wrapped_pairs)
 
     # ---------------- stream: parser model vs real parser on real tokens
     symidx = {}
@@ -624,6 +667,8 @@ def run_programs(ck, symidx):
         cases.append(("corr-prog-hostile", P.syntactic(rng)))
     P.CLEAN[0] = True
     for _ in range(ck.n(150, 2500)):
+        cases.append(("corr-prog-longlines", P.long_lines(rng)))
+    for _ in range(ck.n(150, 2500)):
         cases.append(("corr-prog-types", "type %s = %s\n" % (rng.choice(["t", "`my ty`", "long_type_name"]), G.gen_type(rng, rng.choice([1, 2, 2, 3])))))
     answers = harness("c14", [{"src": s, "targets": [], "compile": False} for _, s in cases])
     todo = []
@@ -646,6 +691,7 @@ def run_programs(ck, symidx):
     def lines(x):
         return [ln.rstrip() for ln in x.split("\n")]
     ptodo = []
+    wrapped_progs = []
     for (stream, src, t, a), v, mt, b, lx in zip(todo, vals, texts, back, lexed):
         ck.count(stream, src)
         pl = O.strip(a["pl"])
@@ -671,6 +717,8 @@ def run_programs(ck, symidx):
             # the real output is wrapped at width 50: texts are not comparable; the model's text must parse -- by the real
             # parser -- to the source tree exactly when the real text does
             ck.stat(stream, "wrapped:ast-compared")
+            if real_ok:
+                wrapped_progs.append((stream, src, a["fmt"], mt))
             model_ok = isinstance(b, dict) and "pl" in b and O.canon(O.strip(b["pl"])) == O.canon(pl)
             if model_ok != real_ok:
                 ck.disagreement("model program text and real program text disagree on whether they parse back to the source tree", dict(case, real_roundtrips=real_ok, model_roundtrips=model_ok), None)
@@ -698,12 +746,34 @@ def run_programs(ck, symidx):
                 ptodo.append((stream, a["fmt"], model_tokens(toks, symidx), prog_term(O.strip(a["pl2"]))))
             except Unsupported:
                 ck.stat(stream, "parser:skipped:outside-model")
+    compare_wrapped(ck, wrapped_progs)
     pv = coq_eval(HEADER, ["parse_prog_prql %d %s" % (FUEL, m) for _, _, m, _ in ptodo])
     for (stream, text, m, want), val in zip(ptodo, pv):
         ck.count("corr-prog-parser", text)
         got = unlist(val[1]) if isinstance(val, tuple) and val[0] == "Some" else None
         if got != unlist(want):
             ck.disagreement("statement parser model differs from prql_to_pl", {"src": text, "model": str(val)[:400], "real": str(want)[:400]}, None)
+
+
+def compare_wrapped(ck, pairs):
+    """line breaking (SeparatedExprs, break_line_within_parenthesis, write_or_expand): the output wrapped at width 50 and
+    the one-line text of the model -- which equals the real output wherever nothing wraps -- lex, through prqlc's own
+    lexer, to the same tokens once the layout is undone and parentheses are erased (layout_tokens)"""
+    if not pairs:
+        return
+    la = harness("c14lex", [{"src": w} for _, _, w, _ in pairs])
+    lb = harness("c14lex", [{"src": o} for _, _, _, o in pairs])
+    for (stream, src, w, o), a, b in zip(pairs, la, lb):
+        ck.count("corr-wrapped-tokens", w)
+        if "ok" not in a or "ok" not in b:
+            ck.stat("corr-wrapped-tokens", "skipped:does-not-lex")
+            continue
+        ta, tb = layout_tokens(a["ok"]), layout_tokens(b["ok"])
+        ck.stat("corr-wrapped-tokens", stream + (":equal" if ta == tb else ":DIFFERENT"))
+        if ta != tb:
+            i = next((k for k in range(min(len(ta), len(tb))) if ta[k] != tb[k]), min(len(ta), len(tb)))
+            ck.disagreement("wrapped output and one-line output differ in more than layout and parentheses",
+                            {"src": src, "wrapped": w, "one_line": o, "first_difference": [str(ta[i:i + 3]), str(tb[i:i + 3])]}, None)
 
 
 def run_interpolations(ck):
